@@ -8,6 +8,7 @@ import (
 )
 
 func getFullPath(filename string, appendExt bool) (string, error) {
+	verifGate("getFullPath.readMode")
 	if usesTemplates {
 		filename = joinPaths(userConfig.TemplateDir, filename)
 	}
